@@ -97,6 +97,8 @@ package rtsp
 //@   modifies
 
 // pull client: requests and responses to the camera are written and flushed inside the write lock
+// counted modulo 2^64 (a counter of flushes has no upper bound): x is o, o+1, o+2 or o+3
+//@ spec func upTo3(x int, o int) bool = x == o || x == o+1 || x == o+2 || x == o+3
 //@ func (c *PullClient) request(req *Request) (rerr error)
 //@   requires c != nil && req != nil && c.conn != nil && !held(&c.lockW)
 //@   modifies held(&c.lockW), out(c.conn), ghostInt(c.conn, "flushed"), ghostInt(c.conn, "flushes")
@@ -105,6 +107,7 @@ package rtsp
 //@   assert[call:Flush] held(&c.lockW)
 //@   assert[call:Unlock] err == nil ==> ghostInt(c.conn, "flushed") == len(out(c.conn))
 //@   ensures !held(&c.lockW)
+//@   ensures ghostInt(c.conn, "flushes") == old(ghostInt(c.conn, "flushes")) || ghostInt(c.conn, "flushes") == old(ghostInt(c.conn, "flushes")) + 1
 
 //@ func (c *PullClient) response(resp *Response) (rerr error)
 //@   requires c != nil && resp != nil && c.conn != nil && !held(&c.lockW)
@@ -304,18 +307,20 @@ package rtsp
 //@   requires c != nil
 //@   modifies c.conn, c.closed
 //@   ensures err == nil ==> c.conn != nil && !c.closed
+// OPTIONS, SETUP (video, audio): each exchange sends at most three requests (see requestWithResponse) and leaves the
+// write lock free, whatever the camera answers
 //@ func (c *PullClient) requestHandshake() (err error)
-//@   trusted
-//@   requires c != nil
-//@   modifies c.realm, c.nonce, c.rsession, c.seq, misc(c)
+//@   requires c != nil && c.conn != nil && c.logger != nil && !held(&c.lockW)
+//@   modifies c.realm, c.nonce, c.rsession, c.seq, c.md5password, misc(c), held(&c.lockW), out(c.conn), ghostInt(c.conn, "flushed"), ghostInt(c.conn, "flushes"), ghostAll("rpos"), anyElems([]string(nil)), ghostAll("misc")
+//@   ensures !held(&c.lockW) && upTo3(ghostInt(c.conn, "flushes"), old(ghostInt(c.conn, "flushes")))
 //@ func (c *PullClient) requestPlay() (err error)
 //@   trusted
 //@   requires c != nil
 //@   modifies c.stream, c.realm, c.nonce, c.rsession, c.seq, misc(c)
 //@ func (c *PullClient) requestSetup() (err error)
-//@   trusted
-//@   requires c != nil
-//@   modifies c.realm, c.nonce, c.rsession, c.seq, misc(c)
+//@   requires c != nil && c.conn != nil && c.logger != nil && c.url != nil && !held(&c.lockW)
+//@   modifies c.realm, c.nonce, c.rsession, c.seq, c.md5password, misc(c), held(&c.lockW), out(c.conn), ghostInt(c.conn, "flushed"), ghostInt(c.conn, "flushes"), ghostAll("rpos"), anyElems([]string(nil)), ghostAll("misc")
+//@   ensures !held(&c.lockW) && (upTo3(ghostInt(c.conn, "flushes"), old(ghostInt(c.conn, "flushes"))) || upTo3(ghostInt(c.conn, "flushes"), old(ghostInt(c.conn, "flushes")) + 3))
 
 // disconnect: idempotent; closes the connection (if any) and resets the protocol state
 //@ func (c *PullClient) disconnect() ()
@@ -328,7 +333,7 @@ package rtsp
 // Open: whatever the camera does at whichever step, a failed Open leaves the client closed with no connection and no
 // stream (the connection it opened is closed); success means the five steps ran in order
 //@ func (c *PullClient) Open() (err error)
-//@   requires c != nil && c.logger != nil
+//@   requires c != nil && c.logger != nil && c.url != nil && !held(&c.lockW)
 //@   modifies all()
 //@   ensures !old(c.closed) ==> err == nil && c.conn == old(c.conn) && c.stream == old(c.stream) && !c.closed
 //@   ensures old(c.closed) && err != nil ==> c.closed && c.conn == nil && c.stream == nil
@@ -342,27 +347,63 @@ package rtsp
 //@ extern func (a gosdp.Attributes) Get(name string) (v string)
 //@   modifies
 //@ func (c *PullClient) newRequest(method string, u *url.URL) (r *Request)
-//@   trusted
 //@   requires c != nil
-//@   modifies c.seq
+//@   modifies c.seq, anyElems([]string(nil)), ghostAll("misc")
 //@   fresh r
 //@   ensures r != nil && r.Header != nil
+// one request/response exchange with the camera, with the Basic/Digest retry ladder: whatever the camera answers
+// (fresh nonce with every 401, garbage challenges, ...) at most three requests are sent per call, the call ends, and
+// success means a final 2xx answer
+//@ extern func errors.New(text string) (e error)
+//@   modifies
+//@   ensures e != nil
+//@ extern func fmt.Errorf(format string, a ...interface{}) (e error)
+//@   modifies
+//@   ensures e != nil
+//@ extern func (resp *fmtrtsp.Response) DigestAuth() (realm string, nonce string, ok bool)
+//@   modifies
+//@ extern func (resp *fmtrtsp.Response) BasicAuth() (realm string, ok bool)
+//@   modifies
+//@ extern func (req *fmtrtsp.Request) SetDigestAuth(u *url.URL, realm string, nonce string, username string, password string) ()
+//@   requires req != nil
+//@   modifies anyElems(req.Header[""]), misc(req)
+//@ extern func (req *fmtrtsp.Request) SetBasicAuth(username string, password string) ()
+//@   requires req != nil
+//@   modifies anyElems(req.Header[""]), misc(req)
+//@ extern func strconv.FormatInt(i int64, base int) (s string)
+//@   modifies
+//@ extern func atomic.AddInt64(addr *int64, delta int64) (n int64)
+//@   modifies *addr
+//@ extern func md5.Sum(data []byte) (sum [16]byte)
+//@   modifies
+//@ extern func hex.EncodeToString(src []byte) (s string)
+//@   modifies
+//@ extern func strings.Index(s string, substr string) (i int)
+//@   modifies
+//@   ensures -1 <= i && i <= len(s) - len(substr)
+//@ func (c *PullClient) receiveResponse() (resp *Response, err error)
+//@   requires c != nil && c.conn != nil && c.logger != nil
+//@   modifies misc(c), ghostAll("rpos"), anyElems([]string(nil))
+//@   freshornil resp
+//@   ensures (err == nil) == (resp != nil)
+//@   ensures err == nil ==> resp.Header != nil
 //@ func (c *PullClient) requestWithResponse(r *Request) (resp *Response, err error)
-//@   trusted
-//@   requires c != nil && r != nil
-//@   modifies c.realm, c.nonce, c.rsession, c.seq, misc(c)
-//@   fresh resp
-//@   ensures err == nil ==> resp != nil
+//@   requires c != nil && r != nil && r.Header != nil && c.conn != nil && c.logger != nil && !held(&c.lockW)
+//@   modifies c.realm, c.nonce, c.rsession, c.seq, c.md5password, misc(c), misc(r), misc(r.Header), anyElems(r.Header[""]), held(&c.lockW), out(c.conn), ghostInt(c.conn, "flushed"), ghostInt(c.conn, "flushes"), ghostAll("rpos")
+//@   freshornil resp
+//@   ensures err == nil ==> resp != nil && 200 <= resp.StatusCode && resp.StatusCode <= 300
+//@   ensures upTo3(ghostInt(c.conn, "flushes"), old(ghostInt(c.conn, "flushes")))
+//@   ensures !held(&c.lockW)
 
 // DESCRIBE: no answer of the camera (SDP without media, media lines without formats, ...) makes this step panic
 //@ func (c *PullClient) requestSDP() (err error)
-//@   requires c != nil
-//@   modifies c.rawSdp, c.sdp, c.vControl, c.vCodec, c.aControl, c.aCodec, c.realm, c.nonce, c.rsession, c.seq, ghostAll("misc")
+//@   requires c != nil && c.conn != nil && c.logger != nil && !held(&c.lockW)
+//@   modifies c.rawSdp, c.sdp, c.vControl, c.vCodec, c.aControl, c.aCodec, ghostAll("misc"), c.realm, c.nonce, c.rsession, c.seq, c.md5password, misc(c), held(&c.lockW), out(c.conn), ghostInt(c.conn, "flushed"), ghostInt(c.conn, "flushes"), ghostAll("rpos"), anyElems([]string(nil))
 //@   local rangeindex int
 //@   loop 0: modifies c.vControl, c.vCodec, c.aControl, c.aCodec
 //@   loop 0: invariant -1 <= rangeindex && c.sdp != nil && rangeindex <= len(c.sdp.Media) && c == old(c)
 //@   loop 0: invariant forall(i, 0, len(c.sdp.Media), c.sdp.Media[i] != nil && (len(c.sdp.Media[i].Format) > 0 ==> c.sdp.Media[i].Format[0] != nil))
-//@   ensures true
+//@   ensures !held(&c.lockW) && c.conn == old(c.conn) && upTo3(ghostInt(c.conn, "flushes"), old(ghostInt(c.conn, "flushes")))
 
 // SETUP url: relative control attributes are joined to the base URL for every base path (also an empty one)
 //@ extern func url.Parse(rawurl string) (u *url.URL, err error)
